@@ -29,6 +29,7 @@ BOUNDS = {
     "sanitize_uint_claim": "see sanitize",
     "semver_from_zerv": "valid schemas from 11 core (incl. literals that only sanitise to digits, signed or padded numbers, custom variables) x 5 extra-core x 3 build lists mixing var / str / uint components, incl. values that split into several identifiers, sanitise to nothing, or overflow u32) x 324 variable assignments; SemVer::from(Zerv).to_string() against an oracle written from the statement",
     "pep440_from_zerv": "the same 119 schemas x 324 assignments; PEP440::from(Zerv).to_string() against an oracle written from the statement",
+    "bump_sequence": "3 start versions x all 28 pairs of levels (7 numeric levels + pre-release label) x 9 override/bump combinations x {no, bump, override} core index operation = 2268 argument sets: apply_component_processing against the real per-level handlers applied by hand in the documented order",
     "semver_roundtrip": "4 cores x 308 pre-release lists (<=2 identifiers from 17, incl. leading-zero alphanumerics, hyphens, numerics around u64::MAX) x 12 build lists x {'', 'v'}: parse, print, compare with the input; 3 cores above u64::MAX; 22 strings outside the grammar must be rejected",
     "pep440_roundtrip": "6 epochs x 6 releases x ~110 pre-release spellings x 9 post x 5 dev x 8 local spellings x {'', v, V}, thinned to ~155k strings, each with its normal form computed from the fields (not by parsing): accepted, prints the normal form, normal form re-parses to itself and compares equal; 20 strings outside the grammar must be rejected",
     "tag_max_semver": "all pairs and a third of the triples over 20 tag names (spellings, pre-releases, build metadata, a non-version): filter_only_valid_tags keeps exactly the parsable ones; find_max_version_tag returns a valid tag that no other valid tag exceeds under the reference precedence",
